@@ -34,7 +34,7 @@ def classify(violated, ev, prev):
     for x in ev.get("rs", []):
         if not x.get("acc"):
             continue
-        if x["cu"] >= 1000000:
+        if x["cu"] in (1000000, 1000001):      # CuSum > MaxInt64 (2^63-1 itself is a legal value)
             huge = True
         if x["rew"] > x["cuv"]:
             over = True
